@@ -4,14 +4,14 @@
 package all
 
 import (
-	_ "github.com/consensys/gnark/verifharness/internal/hooks/h_bn254"
+	_ "github.com/consensys/gnark/verifharness/internal/hooks/h_babybear"
 	_ "github.com/consensys/gnark/verifharness/internal/hooks/h_bls12_377"
 	_ "github.com/consensys/gnark/verifharness/internal/hooks/h_bls12_381"
 	_ "github.com/consensys/gnark/verifharness/internal/hooks/h_bls24_315"
 	_ "github.com/consensys/gnark/verifharness/internal/hooks/h_bls24_317"
+	_ "github.com/consensys/gnark/verifharness/internal/hooks/h_bn254"
 	_ "github.com/consensys/gnark/verifharness/internal/hooks/h_bw6_633"
 	_ "github.com/consensys/gnark/verifharness/internal/hooks/h_bw6_761"
-	_ "github.com/consensys/gnark/verifharness/internal/hooks/h_tinyfield"
-	_ "github.com/consensys/gnark/verifharness/internal/hooks/h_babybear"
 	_ "github.com/consensys/gnark/verifharness/internal/hooks/h_koalabear"
+	_ "github.com/consensys/gnark/verifharness/internal/hooks/h_tinyfield"
 )
